@@ -221,6 +221,24 @@ var perturbations = []perturb{
 		c := m.LogConfigs.Config[i]
 		c.RejectExpired, c.RejectUnexpired = true, false
 	}},
+	{"reject.unexpired-only", "harmless", func(w *CfgWorld, m *configpb.LogMultiConfig, i int) {
+		c := m.LogConfigs.Config[i]
+		c.RejectExpired, c.RejectUnexpired = false, true
+	}},
+	// one reject flag together with a NotAfter window that lies wholly in the past / the future of the clock: what the
+	// window admits and what the flag turns away is a matter of every single submission, not of the configuration
+	{"reject.expired+window-past", "harmless", func(w *CfgWorld, m *configpb.LogMultiConfig, i int) {
+		c := m.LogConfigs.Config[i]
+		c.RejectExpired, c.RejectUnexpired = true, false
+		c.NotAfterStart = timestamppb.New(time.Date(1990, 1, 1, 0, 0, 0, 0, time.UTC))
+		c.NotAfterLimit = timestamppb.New(time.Date(1991, 1, 1, 0, 0, 0, 0, time.UTC))
+	}},
+	{"reject.unexpired+window-future", "harmless", func(w *CfgWorld, m *configpb.LogMultiConfig, i int) {
+		c := m.LogConfigs.Config[i]
+		c.RejectExpired, c.RejectUnexpired = false, true
+		c.NotAfterStart = timestamppb.New(time.Date(2030, 1, 1, 0, 0, 0, 0, time.UTC))
+		c.NotAfterLimit = timestamppb.New(time.Date(2031, 1, 1, 0, 0, 0, 0, time.UTC))
+	}},
 	{"eku.unknown", "reject", func(w *CfgWorld, m *configpb.LogMultiConfig, i int) {
 		c := m.LogConfigs.Config[i]
 		c.ExtKeyUsages = append([]string{"ServerAuth"}, "NoSuchUsage")
@@ -577,6 +595,13 @@ func (w *CfgWorld) Finish(s *kernel.Sim) {
 		return err
 	})
 	outcomes["ValidateLogMultiConfig/copy"] = guard(func() error {
+		_, err := rctfe.ValidateLogMultiConfig(proto.Clone(w.multi).(*configpb.LogMultiConfig))
+		return err
+	})
+	// the verdict is about the configuration, not about the day on which it is read: once more, three years on
+	// (past every window a generated configuration names)
+	time.Sleep(3 * 365 * 24 * time.Hour)
+	outcomes["ValidateLogMultiConfig/three-years-later"] = guard(func() error {
 		_, err := rctfe.ValidateLogMultiConfig(proto.Clone(w.multi).(*configpb.LogMultiConfig))
 		return err
 	})
